@@ -1515,6 +1515,8 @@ STRUCTURAL_TERM_OPS = {
     "jnp.transpose",
     "jnp.flip",
     "jnp.roll",
+    "jnp.fft.rfftn",
+    "jnp.fft.irfftn",
 }
 
 
